@@ -17,7 +17,7 @@ PROPERTY = 'C07'
 LEVEL = 'model_checking'
 
 CLASSES = ['a', 'A', 'b']
-NAMES = ['', 'n', 'N', 'm']
+NAMES = ['', 'n', 'N', 'm', 'a']     # 'a' is also a classname: a name and a class may coincide
 QUERIES = ['n', 'N', 'n*', 'm', 'a', 'A', 'b', '', '*', 'worldspawn', 'info_null']
 MAXH = 3
 
@@ -131,6 +131,27 @@ def apply(st: State, op: list) -> None:
             _, v, n, n2 = op
             for e in st.vmfs[v].by_target[n]:
                 e['targetname'] = n2
+        elif kind == 'iter_class_grow':
+            # nested mutation: while visiting original members add entities to the same index set; while visiting
+            # an added member change the set again (what nested instance expansion does)
+            _, v, c = op
+            n = 0
+            for e in st.vmfs[v].by_class[c]:
+                if n < 2:
+                    cp = e.copy()
+                    st.vmfs[v].add_ent(cp)
+                    n += 1
+                else:
+                    e.remove()
+        elif kind == 'iter_target_grow':
+            _, v, nm = op
+            n = 0
+            for e in st.vmfs[v].by_target[nm]:
+                if n < 2:
+                    st.vmfs[v].create_ent('b', targetname=nm.upper() if nm else 'N')
+                    n += 1
+                else:
+                    e['targetname'] = 'm'
         elif kind == 'iter_search_remove':
             _, v, q = op
             for e in st.vmfs[v].search(q):
@@ -207,7 +228,10 @@ class Model(bfs.Model):
             ops.append(['iter_target_rename', 0, 'n', 'N'])
             ops.append(['iter_target_rename', 0, 'n', 'm'])
             ops.append(['iter_target_rename', 0, None, 'n'])
+            ops.append(['iter_class_grow', 0, 'a'])
+            ops.append(['iter_target_grow', 0, 'n'])
             ops.append(['iter_search_remove', 0, 'n'])
+            ops.append(['iter_search_remove', 0, 'a'])
             ops.append(['iter_search_remove', 0, 'n*'])
         return ops
 
